@@ -351,6 +351,8 @@ def conditions(tier):
         for ck in range(len(CKS)):
             if TAGS[t] == 'IGNORE' and ck:
                 continue
+            if not full and ck == 1 and TAGS[t] not in ('DATA', 'AUX'):
+                continue        # quick: 0 and 3 checksums for every tag, 1 for DATA/AUX
             shapes = (0,) if (ck or (not full and TAGS[t] not in ('AUX', 'DATA'))) \
                 else range(len(PSHAPES))
             for sh in shapes:
